@@ -18,6 +18,8 @@ type comparison =
 | Lt
 | Gt
 
+val compOpp : comparison -> comparison
+
 val add : nat -> nat -> nat
 
 val mul : nat -> nat -> nat
@@ -31,9 +33,19 @@ module Nat :
   val eqb : nat -> nat -> bool
 
   val leb : nat -> nat -> bool
+
+  val ltb : nat -> nat -> bool
  end
 
+val tl : 'a1 list -> 'a1 list
+
 val nth : nat -> 'a1 list -> 'a1 -> 'a1
+
+val nth_error : 'a1 list -> nat -> 'a1 option
+
+val last : 'a1 list -> 'a1 -> 'a1
+
+val removelast : 'a1 list -> 'a1 list
 
 val rev : 'a1 list -> 'a1 list
 
@@ -41,9 +53,13 @@ val map : ('a1 -> 'a2) -> 'a1 list -> 'a2 list
 
 val flat_map : ('a1 -> 'a2 list) -> 'a1 list -> 'a2 list
 
+val fold_left : ('a1 -> 'a2 -> 'a1) -> 'a2 list -> 'a1 -> 'a1
+
 val existsb : ('a1 -> bool) -> 'a1 list -> bool
 
 val forallb : ('a1 -> bool) -> 'a1 list -> bool
+
+val filter : ('a1 -> bool) -> 'a1 list -> 'a1 list
 
 val combine : 'a1 list -> 'a2 list -> ('a1 * 'a2) list
 
@@ -117,6 +133,10 @@ module Coq_Pos :
 
 module N :
  sig
+  val succ_double : n -> n
+
+  val double : n -> n
+
   val add : n -> n -> n
 
   val sub : n -> n -> n
@@ -132,6 +152,12 @@ module N :
   val ltb : n -> n -> bool
 
   val min : n -> n -> n
+
+  val pos_div_eucl : positive -> n -> n * n
+
+  val div_eucl : n -> n -> n * n
+
+  val modulo : n -> n -> n
 
   val to_nat : n -> nat
 
@@ -150,7 +176,31 @@ module Z :
 
   val add : z -> z -> z
 
+  val opp : z -> z
+
+  val sub : z -> z -> z
+
+  val mul : z -> z -> z
+
+  val compare : z -> z -> comparison
+
+  val leb : z -> z -> bool
+
+  val ltb : z -> z -> bool
+
+  val max : z -> z -> z
+
+  val to_nat : z -> nat
+
+  val to_N : z -> n
+
   val of_N : n -> z
+
+  val pos_div_eucl : positive -> z -> z * z
+
+  val div_eucl : z -> z -> z * z
+
+  val modulo : z -> z -> z
  end
 
 type byte = n
@@ -166,6 +216,8 @@ val count_while : ('a1 -> bool) -> 'a1 list -> nat
 val is_prefix : bytes -> bytes -> bool
 
 val bytes_eqb : bytes -> bytes -> bool
+
+val is_cont : byte -> bool
 
 val strip : bytes -> bytes
 
@@ -666,3 +718,172 @@ val nflat : tree -> nat
 val passes_fuel : tree -> nat
 
 val all_passes : rawTokenType list -> nat list list
+
+val blen : bytes -> n
+
+val u16 : n -> n
+
+val u32 : n -> n
+
+val u32z : z -> n
+
+val count_lf : bytes -> n
+
+val rfind_lf : bytes -> n option
+
+val first_line_len : bytes -> n
+
+val split_lf : bytes -> bytes list
+
+val nsum : n list -> n
+
+val last_opt : 'a1 list -> 'a1 option
+
+val is_char_boundary : bytes -> nat -> bool
+
+type rtok = (bytes * bytes) * rawTokenType
+
+val r_ws : rtok -> bytes
+
+val r_content : rtok -> bytes
+
+val r_ty : rtok -> rawTokenType
+
+val r_str : rtok -> bytes
+
+type tokpos =
+| PContent of n
+| PMultiline of n * n
+| PWhitespace of n * n
+
+val is_multiline_raw : rawTokenType -> bool
+
+val find_cursor : rtok list -> nat -> z -> ((nat * rtok) * z) option
+
+val col_back_pre : rtok list -> n
+
+val col_for_token_end_pre_fmt : rtok list -> nat -> n
+
+val tokpos_of : rtok list -> nat -> rtok -> z -> tokpos
+
+val process_cursor : rtok list -> n -> nat * tokpos
+
+val process_cursor_ok : rtok list -> n -> bool
+
+val nl_len : rsettings -> n
+
+val nonbreaking_ws_len : rsettings -> ftoken -> n * bool
+
+val ws_len : rsettings -> ftoken -> n
+
+val col_back_post : rsettings -> ftoken list -> n
+
+val col_for_token_end_post_fmt : rsettings -> ftoken list -> nat -> n
+
+val offset_for_token : rsettings -> ftoken list -> nat -> n
+
+val offset_from_end : bytes -> n -> n -> n
+
+val relocate_target : ftoken list -> nat -> tokpos -> (ftoken * tokpos) option
+
+val lines_back : n -> n -> n
+
+val lf_positions_from : n -> bytes -> n list
+
+val kept_len_ignored : bytes -> nat -> n
+
+val kept_len : rsettings -> ftoken -> n -> n
+
+val clamp : n -> n -> n -> n
+
+val relocate_at : rsettings -> ftoken list -> nat -> ftoken -> tokpos -> z
+
+val relocate : rsettings -> ftoken list -> nat -> tokpos -> z option
+
+val track_cursor : rsettings -> rtok list -> ftoken list -> n -> z option
+
+val track_cursor_u32 : rsettings -> rtok list -> ftoken list -> n -> n
+
+val is_lf : byte -> bool
+
+val is_cr : byte -> bool
+
+val is_term : byte -> bool
+
+val is_quote : byte -> bool
+
+val cons_to_first : byte -> bytes list -> bytes list
+
+val ml_drop_while : (byte -> bool) -> bytes -> bytes
+
+val trim_start_by : (byte -> bool) -> bytes -> bytes
+
+val trim_end_by : (byte -> bool) -> bytes -> bytes
+
+val trim_by : (byte -> bool) -> bytes -> bytes
+
+val ml_strip_prefix : bytes -> bytes -> bytes option
+
+val is_nil : 'a1 list -> bool
+
+val split_incl_custom : bool -> bytes -> bytes list
+
+val lines_custom : bytes -> bytes list
+
+val last_opt0 : 'a1 list -> 'a1 option
+
+val is_u3000 : byte -> byte -> byte -> bool
+
+val count_leading_whitespace : bytes -> nat
+
+val ml_indent : rsettings -> n -> n -> bytes
+
+val rewrite_line : bytes -> bytes -> bytes -> bytes option
+
+val rewrite_lines : bytes -> bytes -> bytes -> bytes list -> bytes option
+
+val try_rewrite_string : rsettings -> n -> n -> bytes -> bytes -> bytes option
+
+val leading_ws : bytes -> bytes
+
+val ml_base_of_last_line : bytes -> bytes option
+
+val rewrite_ml_token : rsettings -> n -> n -> bytes -> bytes option
+
+val line_ok : n list -> n list -> bool
+
+val strip_indent : n list -> n list -> n list
+
+val closing_line : n list -> n list
+
+val closing_indent : n list -> n list
+
+val interior : n list -> n list list
+
+val ml_value : n list -> n list list
+
+val eligible : n list -> bool
+
+type lline = { ll_type : logicalLineType; ll_level : n;
+               ll_parent : (nat * nat) option; ll_toks : nat list }
+
+val strictly_increasing : nat list -> bool
+
+val line_ok0 : nat -> lline -> bool
+
+val count_in_lines : lline list -> nat -> nat
+
+val is_cond_directive : tokenType -> bool
+
+val lines_cover : tokenType list -> lline list -> bool
+
+val parents_ok_from : lline list -> nat -> lline list -> bool
+
+val parents_ok : lline list -> bool
+
+val eof_line_ok : tokenType list -> lline list -> bool
+
+module MLStringJoin :
+ sig
+  val join : bytes -> bytes list -> bytes
+ end
